@@ -256,5 +256,7 @@ def run(prog, rep):
                     wa += 1
                 if is_callee(t, r"Write::write$|Write>::write$"):
                     rep.violation("C14.J", "display_json :: partial write", sp_str(t["sp"]), "write() may write only a prefix; write_all is required")
+        rep.control("C14.J", prog.control is not None and any(is_callee(t, r"Write::write$|Write>::write$") for g in prog.control.fns.values() if g.body is not None for _b, t in g.body.calls()),
+                    "planted partial write() is recognised")
         rep.check(wa == 2, "C14.J", "display_json :: write_all", f.loc(), "all bytes written on both paths (stdout / file)", "expected write_all on both output paths, found %d" % wa)
     rep.trust("serde_json produces valid JSON text for maps with string keys, sequences, strings, integers and booleans")
